@@ -50,4 +50,54 @@ theorem WF.pos {s : Stmt} (h : WF s) : ∀ l, l ∈ labels s → l ≠ 0 := by
   | join | spin => exact absurd h id
   | _ => intro l hl; simp [labels] at hl
 
+/-- give every PT_ macro its own line number, counting from `k` (what writing the body with one macro
+per source line does); residual forms are mapped back to their source forms -/
+def relabel : Stmt → Nat → Stmt × Nat
+  | yield _, k => (yield k, k + 1)
+  | wait _, k => (wait k, k + 1)
+  | waitUntil _ c, k => (waitUntil k c, k + 1)
+  | seq a b, k => (seq (relabel a k).1 (relabel b (relabel a k).2).1, (relabel b (relabel a k).2).2)
+  | ifte c a b, k => (ifte c (relabel a k).1 (relabel b (relabel a k).2).1, (relabel b (relabel a k).2).2)
+  | ifChildOk a b, k => (ifChildOk (relabel a k).1 (relabel b (relabel a k).2).1, (relabel b (relabel a k).2).2)
+  | .while c b, k => (.while c (relabel b k).1, (relabel b k).2)
+  | spawn _ ch, k => (spawn k (relabel ch (k + 1)).1, (relabel ch (k + 1)).2)
+  | join _ ch, k => (spawn k (relabel ch (k + 1)).1, (relabel ch (k + 1)).2)
+  | spawnAndCheck _ ch, k => (spawnAndCheck k (relabel ch (k + 1)).1, (relabel ch (k + 1)).2)
+  | call _ ch, k => (call k (relabel ch (k + 1)).1, (relabel ch (k + 1)).2)
+  | spin _ ch, k => (call k (relabel ch (k + 1)).1, (relabel ch (k + 1)).2)
+  | s, k => (s, k)
+
+theorem relabel_spec (s : Stmt) : ∀ k, k ≤ (relabel s k).2 ∧
+    (∀ l : Nat, l ∈ labels (relabel s k).1 → k ≤ l ∧ l < (relabel s k).2) ∧ (0 < k → WF (relabel s k).1) := by
+  induction s with
+  | yield l | wait l | waitUntil l c =>
+    intro k; simp only [relabel, labels, List.mem_singleton, WF]
+    exact ⟨by omega, fun l hl => by subst hl; omega, fun h => Nat.ne_of_gt h⟩
+  | seq a b iha ihb | ifte c a b iha ihb | ifChildOk a b iha ihb =>
+    intro k
+    obtain ⟨a1, a2, a3⟩ := iha k
+    obtain ⟨b1, b2, b3⟩ := ihb (relabel a k).2
+    simp only [relabel, labels, List.mem_append, WF]
+    refine ⟨by omega, ?_, fun h => ⟨a3 h, b3 (by omega), ?_⟩⟩
+    · rintro l (hl | hl)
+      · have := a2 l hl; omega
+      · have := b2 l hl; omega
+    · intro l hla hlb
+      have := a2 l hla; have := b2 l hlb; omega
+  | «while» c b ih => intro k; exact ih k
+  | spawn l ch ih | join l ch ih | spawnAndCheck l ch ih =>
+    intro k
+    obtain ⟨c1, c2, c3⟩ := ih (k + 1)
+    simp only [relabel, labels, List.mem_singleton, WF]
+    exact ⟨by omega, fun l hl => by subst hl; omega, fun h => ⟨Nat.ne_of_gt h, c3 (by omega)⟩⟩
+  | call l ch ih | spin l ch ih =>
+    intro k
+    obtain ⟨c1, c2, c3⟩ := ih (k + 1)
+    simp only [relabel, labels, WF]
+    exact ⟨by omega, fun l hl => by simp at hl, fun h => c3 (by omega)⟩
+  | _ => intro k; simp [relabel, labels, WF]
+
+/-- non-vacuity of the scope: every body, relabelled from line 1, has unique non-zero labels -/
+theorem relabel_wf (s : Stmt) : WF (relabel s 1).1 := (relabel_spec s 1).2.2 (by omega)
+
 end Librfn.Spec.PT
